@@ -395,12 +395,24 @@ type RecWriter struct {
 	failed bool
 	Delays []int // microseconds, indexed by call number modulo len
 	Err    error // error to inject (default ErrInjected)
+	muted  bool  // the run is over: accept and forget (cleanup of a writer that the script left open)
+}
+
+// Mute makes the writer accept and drop everything from now on.
+func (w *RecWriter) Mute() {
+	w.mu.Lock()
+	w.muted = true
+	w.mu.Unlock()
 }
 
 func NewRecWriter() *RecWriter { return &RecWriter{Fault: Fault{K: -1}} }
 
 func (w *RecWriter) Write(p []byte) (int, error) {
 	w.mu.Lock()
+	if w.muted {
+		w.mu.Unlock()
+		return len(p), nil
+	}
 	k := w.Calls
 	w.Calls++
 	var d int
